@@ -283,4 +283,49 @@ HARNESS(h_two_threads) {
     symx_witness();
 }
 #endif
+
+/* thread life cycle: the thread that was first to use the FFT ends (its thread_local destructors run, as registered with
+ * __cxa_thread_atexit by the compiler's TLS wrapper), then another thread evaluates: no access to anything the first thread
+ * released, same output as on any other thread, and after the second thread ends nothing is left allocated. */
+#ifndef SYMX_NATIVE
+struct AtExit { void (*f)(void *); void *obj; uint32_t tid; };
+static AtExit atexit_tab[8];
+static int atexit_n;
+extern "C" int __cxa_thread_atexit(void (*f)(void *), void *obj, void *dso) {
+    if (atexit_n < 8) { atexit_tab[atexit_n].f = f; atexit_tab[atexit_n].obj = obj; atexit_tab[atexit_n].tid = symx_tid; atexit_n++; }
+    return 0;
+}
+static void thread_exit(uint32_t tid) {
+    symx_tid = tid;
+    for (int i = atexit_n - 1; i >= 0; i--) if (atexit_tab[i].f && atexit_tab[i].tid == tid) { atexit_tab[i].f(atexit_tab[i].obj); atexit_tab[i].f = 0; }
+    symx_tid = 0;
+}
+HARNESS(h_thread_exit) {
+    symx_run_ctors();
+    fill_job(jobA, OPA); fill_job(jobB, OPB);
+    refB = jobB;
+    symx_tid = 0; run_job(refB, OPB);          /* reference: the same job on the first thread */
+    symx_tid = 0; run_job(jobA, OPA);
+    thread_exit(0);
+    symx_tid = 1; run_job(jobB, OPB);
+    symx_tid = 0;
+    symx_observe((uint32_t) jobB.out[0]);
+#ifndef NOEQ     /* NOEQ: the variant with the real transform kernel decides memory safety and leaks only (no second copy of the FFT to compare) */
+    CHECK(same_job(jobB, refB) + CANARY == 1, "C06 a thread that starts after the first FFT-using thread has ended computes the same output");
 #endif
+    thread_exit(1);
+    symx_witness();
+}
+#else
+HARNESS(h_thread_exit) {
+    fill_job(jobA, OPA); fill_job(jobB, OPB);
+    refB = jobB;
+    { std::thread ta([] { run_job(refB, OPB); run_job(jobA, OPA); }); ta.join(); }
+    { std::thread tb([] { run_job(jobB, OPB); }); tb.join(); }
+    symx_observe((uint32_t) jobB.out[0]);
+    CHECK(same_job(jobB, refB) + CANARY == 1, "C06 a thread that starts after the first FFT-using thread has ended computes the same output");
+    symx_witness();
+}
+#endif
+#endif
+
